@@ -25,13 +25,16 @@ ASSUMPTIONS = ['NLA: the site is the reference coordinate of the C of CATG; CHIC
                'cycle-shifted reads are simulated without soft clip']
 MIN_NONTRIVIAL = {'quick': 3000, 'thorough': 150000}
 REQUIRED_MONITORS = ['obs:nla_fragments', 'obs:chic_fragments', 'obs:cycle_shift', 'obs:motif_broken', 'obs:clipped', 'mirror:fragments',
-                     'cli:records_checked', 'obs:invert_strand', 'obs:single_end', 'obs:sites_at_contig_ends', 'obs:fragments_with_site_0', 'molecule:family_sites_compared', 'obs:non_default_primer_lengths', 'obs:chic_reads_starting_on_the_first_or_last_base', 'obs:hard_clipped', 'obs:read_2_unmapped_next_to_read_1']
+                     'cli:records_checked', 'obs:invert_strand', 'obs:single_end', 'obs:sites_at_contig_ends', 'obs:fragments_with_site_0', 'molecule:family_sites_compared', 'obs:non_default_primer_lengths', 'obs:chic_reads_starting_on_the_first_or_last_base', 'obs:hard_clipped', 'obs:read_2_unmapped_next_to_read_1', 'obs:switch_given_as_int', 'obs:switch_given_as_NoneType', 'no_overhang:fragments', 'no_overhang:too_far_from_any_motif', 'no_overhang:cli_records_checked']
 SHARD_TIMEOUT = {'quick': 900, 'thorough': 5400}
 
 
 def gen_cases(tier, seed):
     n = 240 if tier == 'quick' else 12000
-    return [{'i': i, 'seed': seed} for i in range(n)]
+    cases = [{'i': i, 'seed': seed} for i in range(n)]
+    # restriction-digest libraries whose reads do not carry the overhang: the motif is looked up in the reference next to the read start
+    cases += [{'kind': 'no_overhang', 'i': i, 'seed': seed} for i in range(24 if tier == 'quick' else 1200)]
+    return cases
 
 
 def mirror_records(gen, recs):
@@ -100,7 +103,115 @@ def observe(frag):
             'qcfail': r1.is_qcfail, 'valid': frag.is_valid(), 'strand': frag.strand, 'match_hash': frag.match_hash}
 
 
+def run_no_overhang(case):
+    """NlaIII data without the CATG in the reads (-method nla_no_overhang / NlaIIIFragment(no_overhang=True, reference=...)): read 1 begins 0..3
+    bases behind the motif; the site is the reference coordinate of the C of that CATG on either strand, the mirrored fragment gets the mirrored
+    site, and a read further than 3 bases from any CATG is rejected."""
+    import pysam
+    import singlecellmultiomics.fragment as smf
+    from singlecellmultiomics.universalBamTagger.universalBamTagger import QueryNameFlagger
+    acc = Acc()
+    r = rng(case['seed'], 'C09', 'no_overhang', case['i'])
+    contigs = [(f'chr{j + 1}', r.choice([3000, 5000])) for j in range(r.randint(1, 2))]
+    gen = F.Genome(r, contigs)
+    lens = dict(contigs)
+    recs, truths = [], {}
+    rid = 1
+    for name, ln in contigs:
+        pos = 400
+        while pos < ln - 500:
+            gen.plant(name, pos)
+            for _ in range(r.randint(1, 4)):
+                reverse = r.random() < 0.5
+                gap = r.choice([0, 0, 1, 2, 3, 3, 4, 5])
+                single = r.random() < 0.25
+                fr, tr = F.make_fragment(gen, r, rid, case['i'] + 1, 'nla', r.randint(1, 3), name, pos, reverse, F.rand_dna(r, 3), r.randint(80, 250),
+                                         single_end=single)
+                if fr is None:
+                    continue
+                k = 4 + gap
+                r1 = fr[0]
+                if not reverse:
+                    r1['pos'] += k
+                    r1['seq'], r1['qual'] = r1['seq'][k:], r1['qual'][k:]
+                else:
+                    r1['seq'], r1['qual'] = r1['seq'][:-k], r1['qual'][:-k]
+                r1['cigar'] = f"{len(r1['seq'])}M"
+                r1['tags'] = {}
+                if len(fr) == 2:
+                    fr[1]['next_pos'] = r1['pos']
+                tr.update(kind='no_overhang', gap=gap)
+                recs.extend(fr)
+                truths[rid] = tr
+                rid += 1
+            pos += r.randint(350, 700)
+    if not truths:
+        return acc
+    header = make_header(gen.refs)
+    with Scratch('c09n') as dd:
+        fa = gen.write_fasta(os.path.join(dd, 'ref.fa'))
+        mfa = os.path.join(dd, 'mirror.fa')
+        with open(mfa, 'w') as f:
+            for n_, _ in gen.refs:
+                f.write(f'>{n_}\n{revcomp(gen.get(n_))}\n')
+        pysam.faidx(mfa)
+        with pysam.FastaFile(fa) as ref, pysam.FastaFile(mfa) as mref:
+            fargs = {'umi_hamming_distance': 0, 'no_overhang': True, 'reference': ref}
+            frs = build_fragments(header, recs, smf.NlaIIIFragment, fargs, QueryNameFlagger())
+            mfrs = build_fragments(header, mirror_records(gen, recs), smf.NlaIIIFragment, dict(fargs, reference=mref), QueryNameFlagger())
+            for rid, t in truths.items():
+                o, mo = observe(frs[rid]), observe(mfrs[rid])
+                acc.evals += 1
+                acc.count('no_overhang:fragments')
+                strand_txt = 'reverse' if t['reverse'] else 'forward'
+                wit = {'mode': 'no_overhang', 'truth': {k: str(v) for k, v in t.items() if k != 'key'}, 'observed': {k: str(v) for k, v in o.items()},
+                       'mirror_observed': {k: str(v) for k, v in mo.items()},
+                       'reads': [(x['flag'], x['pos'], x['cigar'], x['seq']) for x in recs if F.id_from_name(x['name']) == rid]}
+                if t['gap'] <= 3:
+                    if not o['valid'] or o['DS'] is None:
+                        acc.violate(f'no-overhang:valid-fragment-rejected:{strand_txt}', f'{strand_txt} read 1 begins {t["gap"]} bases behind the CATG at {t["site"]} but the '
+                                                                                         f'fragment was rejected (RR={o["RR"]})', wit)
+                    elif o['DS'] != t['site']:
+                        acc.violate(f'no-overhang:site-off:{strand_txt}', f'{strand_txt} fragment, gap {t["gap"]}: DS={o["DS"]} expected {t["site"]}', wit)
+                    acc.sigs.add(f"n/{case['i']}/{rid}")
+                else:
+                    acc.count('no_overhang:too_far_from_any_motif')
+                    if o['valid'] or o['DS'] is not None:
+                        acc.violate('no-overhang:motifless-fragment-assigned-a-site', f'{strand_txt} read 1 begins {t["gap"]} bases behind the nearest CATG but got '
+                                                                                      f'DS={o["DS"]} valid={o["valid"]}', wit)
+                if o['valid'] != mo['valid']:
+                    acc.violate('no-overhang:mirror-validity-differs', f'{strand_txt} fragment (gap {t["gap"]}): valid={o["valid"]}, its mirror image valid={mo["valid"]}', wit)
+                elif o['valid'] and o['DS'] is not None and mo['DS'] is not None and mo['DS'] != lens[t['contig']] - 4 - o['DS']:
+                    acc.violate('no-overhang:mirror-site-asymmetric', f'{strand_txt} fragment: DS={o["DS"]}, mirror DS={mo["DS"]} expected {lens[t["contig"]] - 4 - o["DS"]}', wit)
+        # the command line route of the same data
+        if case['i'] % 3 == 0:
+            from singlecellmultiomics.universalBamTagger.bamtagmultiome import run_multiome_tagging_cmd
+            bam = write_bam(os.path.join(dd, 'in.bam'), gen.refs, recs)
+            out = os.path.join(dd, 'out.bam')
+            try:
+                with contextlib.redirect_stdout(io.StringIO()), contextlib.redirect_stderr(io.StringIO()):
+                    run_multiome_tagging_cmd([bam, '-o', out, '-method', 'nla_no_overhang', '-ref', fa, '-umi_hamming_distance', '0'])
+            except Exception as ex:
+                acc.violate('no-overhang:cli-raised:' + type(ex).__name__, f'-method nla_no_overhang raised {ex!r}', {'mode': 'no_overhang'})
+                return acc
+            with pysam.AlignmentFile(out) as f:
+                for a in f.fetch(until_eof=True):
+                    if a.is_unmapped or a.is_read2:
+                        continue
+                    t = truths[F.id_from_name(a.query_name)]
+                    acc.count('no_overhang:cli_records_checked')
+                    ds = a.get_tag('DS') if a.has_tag('DS') else None
+                    exp = t['site'] if t['gap'] <= 3 else None
+                    if ds != exp:
+                        acc.violate('no-overhang:cli-site-off', f'-method nla_no_overhang: read 1 of fragment {t["id"]} ({"reverse" if t["reverse"] else "forward"}, gap {t["gap"]}) '
+                                                                f'DS={ds} expected {exp}', {'mode': 'no_overhang', 'truth': {k: str(v) for k, v in t.items() if k != 'key'}})
+    acc.sample = {'mode': 'no_overhang', 'fragments': len(truths)}
+    return acc
+
+
 def run_case(case):
+    if case.get('kind') == 'no_overhang':
+        return run_no_overhang(case)
     import singlecellmultiomics.fragment as smf
     from singlecellmultiomics.universalBamTagger.universalBamTagger import QueryNameFlagger
     acc = Acc()
@@ -211,6 +322,11 @@ def run_case(case):
         acc.count('obs:invert_strand')
     if nocigar:
         fargs['no_umi_cigar_processing'] = True
+    elif case['i'] % 3 == 2:
+        # the switch given explicitly as "off", in the forms option values arrive in: False, 0, a numpy boolean (option sweeps), None (dict.get)
+        import numpy as _np
+        fargs['no_umi_cigar_processing'] = [False, 0, _np.bool_(False), None][(case['i'] // 3) % 4]
+        acc.count('obs:switch_given_as_' + type(fargs['no_umi_cigar_processing']).__name__)
     cfg = {'method': method, 'trimmed': trimmed, 'allow_cycle_shift': allow_shift, 'invert_strand': invert, 'no_umi_cigar_processing': nocigar}
     qf = QueryNameFlagger()
     frs = build_fragments(header, recs, fclass, fargs, qf)
